@@ -114,6 +114,7 @@ def check(model, rep):
         return [t]
     for name, want in (('RpToTrans', (0, 0, 0, 1)), ('TransInv', (0, 0, 0, 1)), ('MatrixExp6', (0, 0, 0, 1)),
                        ('VecTose3', (0, 0, 0, 0)), ('MatrixLog6', (0, 0, 0, 0))):
+        written = []
         for bi, b in enumerate(branches(nf(name))):
             row = [tv.read_cell(model, b, 3, c) for c in range(4)] if (isinstance(b, tuple) and b[0] == 'block' and b[1] == (4, 4)) else None
             ok = row is not None and all(x is not None and is_num(x, w) for x, w in zip(row, want))
@@ -122,9 +123,14 @@ def check(model, rep):
             if row is not None:
                 # rows 0..2 must be written from data (not left as the constructor's base)
                 rot_cells = [c for c in b[2] if c[0] < 3 and c[2] < 3 and not is_num(c[4])]
-                if name in ('RpToTrans', 'TransInv', 'VecTose3') or (name in ('MatrixExp6', 'MatrixLog6') and bi == 1):
+                written.append(bool(rot_cells))
+                if name in ('RpToTrans', 'TransInv', 'VecTose3'):
                     rep.ob('R01.2', fi(name), 'branch %d rotation block written' % bi, bool(rot_cells),
                            'rotation block of the result is constant')
+        if name in ('MatrixExp6', 'MatrixLog6'):
+            # one branch is the pure-translation case (constant rotation block), the general branch writes it from data - in either order
+            rep.ob('R01.2', fi(name), 'the general branch writes the rotation block', any(written),
+                   'rotation block of the result is constant on every branch')
 
     # ---------------------------------------------------------------- R01.3
     rep.rule('R01.3', 'Adjoint = [[R,0],[[p]R,R]], ad = [[[w],0],[[v],[w]]], TransInv = [[R^T,-R^T p],[0,1]]')
